@@ -70,6 +70,13 @@ CHECKS.update({
   note="Trusted: z3/CrossHair, orjson/pydantic/base64 on concrete values; pickle of reports replaced by identity; subprocess spawning stubbed. Outside: the poller loop of serve(), reports from unknown jobs."),
 })
 
+CHECKS.update({
+ "C15": dict(category="other", design_ref="DESIGN.md §2 E3, §4 C15", engine="E3-symreal",
+  technique="symbolic reals (z3 Real terms as numpy/xarray object-array elements) through the real backends; z3 decides result != reference for all element values on every comparison path",
+  text="Every backend operation (sum, prod, min, max, mean, std, var with 2..4 (thorough 6) arguments and single-argument with every axis; stack/concat with every axis; add/subtract/multiply/divide/pow; take with int and list indices) is run unmodified on arrays whose elements are z3 Real terms, on the array-API backend and on the xarray backend, for shapes (2,), (2,2) (thorough also (3,), (2,3)). The result is compared with a first-principles reference term; z3 is asked for element values that separate them (unsat = equal for all reals; min/max explore every feasible comparison outcome). Every function that carries the batchable mark in the current source (discovered by introspection) is checked for every ordered partition of 2..4 (5) arguments, and every set partition for the symmetric reductions: f(f(B1),...,f(Bm)) = f(all) for all reals. A model is replayed exactly on Fraction arrays before it is reported.",
+  note="Trusted: z3 (QF_NRA incl. an uninterpreted sqrt), numpy/xarray object-array loops. Exact real arithmetic - rounding, NaN handling, other dtypes, the FieldList backend are outside. A batch of one is passed through unchanged (as fluent does); xarray reductions use skipna=False."),
+})
+
 NA_REASON = "check not built yet in this round (planned, see DESIGN.md §4); not claimed until its harness exists and passes on the unchanged tree"
 
 def main():
@@ -100,6 +107,7 @@ def main():
         },
         "engines": [
             {"name": "E2-smt", "path": "vf/engine_smt.py", "serves_properties": ["C17"], "kind_free_text": "AST -> z3 translation of cascade/shm/api.py, regenerated from the current source at every run"},
+            {"name": "E3-symreal", "path": "vf/engine_symreal.py", "serves_properties": ["C13", "C15"], "kind_free_text": "z3 Real terms as array elements flowing through the real numpy/xarray backends and fluent payloads; concolic DFS over comparison outcomes; z3 decides result != reference"},
             {"name": "E1-crosshair", "path": "vf/engine_xh.py", "serves_properties": [p for p in ALL if p in CHECKS and CHECKS[p].get("engine","E1-crosshair")=="E1-crosshair"],
              "kind_free_text": "CrossHair 0.0.110 driven as a library (StateSpace/RootNode path tree, z3 deciding every branch) over the real functions; exhaustion of the decision tree within stated bounds"},
         ],
